@@ -125,6 +125,15 @@ def touches(p, evs):
                 x = a[0]
                 if x[0] in ('ref', 'rawptr') and x[1][0] == 'pfield' and x[1][2] == 'data':
                     t.add('OWN_SLOT_DROP')
+            if n == 'std::ptr::drop_in_place' and a:
+                # `ptr::drop_in_place(self.data.as_mut_ptr())`: std's own definition of `assume_init_drop`
+                x = a[0]
+                while x is not None and x[0] == 'cast' and len(x) > 2:
+                    x = x[2]
+                if x is not None and x[0] == 'call' and x[2] == 'std::mem::MaybeUninit::as_mut_ptr' and x[3]:
+                    y = x[3][0]
+                    if y[0] in ('ref', 'rawptr') and y[1][0] == 'pfield' and y[1][2] == 'data':
+                        t.add('OWN_SLOT_DROP')
             if n == 'signal::Signal::assume_init':
                 t.add('VIA_SIGNAL')
             if n == 'signal::Signal::load_and_drop':
